@@ -25,6 +25,7 @@ import (
 type edit struct {
 	off, del int
 	ins      string
+	prio     int64 // order among edits at the same offset (closing inserts < opening inserts < replacements)
 }
 
 type fileEdits struct {
@@ -36,7 +37,22 @@ type fileEdits struct {
 }
 
 func (f *fileEdits) add(off, del int, ins string) {
-	f.edits = append(f.edits, edit{off, del, ins})
+	f.edits = append(f.edits, edit{off, del, ins, 0})
+}
+
+var editSeq int64
+
+// open inserts text in front of a node (outer nodes first), closeAt behind a
+// node (inner nodes first); both sort before a replacement that starts at the
+// same offset.
+func (f *fileEdits) open(off int, ins string) {
+	editSeq++
+	f.edits = append(f.edits, edit{off, 0, ins, -(1 << 30) + editSeq})
+}
+
+func (f *fileEdits) closeAt(off int, ins string) {
+	editSeq++
+	f.edits = append(f.edits, edit{off, 0, ins, -(1 << 40) - editSeq})
 }
 
 // addTail appends a declaration to the end of the file once (used to keep
@@ -73,6 +89,10 @@ var injections = []struct{ pkg, recv, fn, code string }{
 }
 
 var stats = map[string]int{}
+
+// import paths of the packages that are rewritten (channels created by any
+// other package are real Go channels and cannot be simulated)
+var rewritten = map[string]bool{}
 
 func main() {
 	dir := flag.String("dir", "", "harness module directory (load point)")
@@ -144,7 +164,12 @@ func main() {
 		if !under {
 			continue
 		}
-		rewritePkg(p)
+		rewritten[p.PkgPath] = true
+	}
+	for _, p := range all {
+		if rewritten[p.PkgPath] {
+			rewritePkg(p)
+		}
 	}
 	var keys []string
 	for k := range stats {
@@ -219,7 +244,31 @@ func rewritePkg(p *packages.Package) {
 			if fd, ok := decl.(*ast.FuncDecl); ok {
 				curFn = fd
 			}
+			// comma-ok receives: v, ok := <-c / v, ok = <-c / var v, ok = <-c
+			commaOk := map[*ast.UnaryExpr]bool{}
+			labeled := map[ast.Stmt]bool{}
 			ast.Inspect(decl, func(n ast.Node) bool {
+				switch a := n.(type) {
+				case *ast.AssignStmt:
+					if len(a.Lhs) == 2 && len(a.Rhs) == 1 {
+						if u, ok := ast.Unparen(a.Rhs[0]).(*ast.UnaryExpr); ok && u.Op == token.ARROW {
+							commaOk[u] = true
+						}
+					}
+				case *ast.ValueSpec:
+					if len(a.Names) == 2 && len(a.Values) == 1 {
+						if u, ok := ast.Unparen(a.Values[0]).(*ast.UnaryExpr); ok && u.Op == token.ARROW {
+							commaOk[u] = true
+						}
+					}
+				case *ast.LabeledStmt:
+					labeled[a.Stmt] = true
+				}
+				return true
+			})
+			handledChanType := map[*ast.ChanType]bool{}
+			var visit func(n ast.Node) bool
+			visit = func(n ast.Node) bool {
 				switch x := n.(type) {
 				case *ast.GoStmt:
 					fe.need = true
@@ -229,6 +278,26 @@ func rewritePkg(p *packages.Package) {
 					if fl, ok := call.Fun.(*ast.FuncLit); ok && len(call.Args) == 0 {
 						fe.add(off(x.Pos()), off(fl.Pos())-off(x.Pos()), fmt.Sprintf("__simrt.Go(%q, ", nm))
 						fe.add(off(fl.End()), off(x.End())-off(fl.End()), ")")
+					} else if fl, ok := call.Fun.(*ast.FuncLit); ok {
+						// go func(params){...}(args): the literal stays in place (constructs
+						// inside it are rewritten by their own edits), the arguments are
+						// evaluated first, as Go does
+						var pre strings.Builder
+						pre.WriteString("{ ")
+						var args []string
+						for _, a := range call.Args {
+							av := uniq("a")
+							pre.WriteString(av + " := " + text(a) + "; ")
+							args = append(args, av)
+						}
+						ell := ""
+						if call.Ellipsis.IsValid() {
+							ell = "..."
+						}
+						pre.WriteString(fmt.Sprintf("__simrt.Go(%q, func() { ", nm))
+						fe.add(off(x.Pos()), off(fl.Pos())-off(x.Pos()), pre.String())
+						tailOld := string(fe.src[off(fl.End()):off(x.End())])
+						fe.add(off(fl.End()), off(x.End())-off(fl.End()), fmt.Sprintf("(%s%s) }) }", strings.Join(args, ", "), ell)+strings.Repeat("\n", strings.Count(tailOld, "\n")))
 					} else {
 						var pre strings.Builder
 						pre.WriteString("{ ")
@@ -255,31 +324,117 @@ func rewritePkg(p *packages.Package) {
 					}
 					switch u := t.Underlying().(type) {
 					case *types.Chan:
-						trap(x.Pos(), "range over channel")
+						if why := chanUnsupported(p, x.X); why != "" {
+							trap(x.Pos(), "range over "+why)
+							break
+						}
+						if !simpleExpr(x.X) || x.Tok == token.ASSIGN || x.Value != nil {
+							trap(x.Pos(), "range over channel (form not supported)")
+							break
+						}
+						fe.need = true
+						stats["chan_ranges"]++
+						kv := "_"
+						if x.Key != nil {
+							kv = text(x.Key)
+						}
+						okv := uniq("ok")
+						C := text(x.X)
+						start := off(x.For)
+						end := off(x.Body.Lbrace)
+						old := string(fe.src[start:end])
+						fe.add(start, end-start, fmt.Sprintf("for %s, %s := (%s).Recv2(); %s; %s, %s = (%s).Recv2() ", kv, okv, C, okv, kv, okv, C)+strings.Repeat("\n", strings.Count(old, "\n")))
+						// (the channel expression is simple: nothing inside it needs rewriting)
+						for _, st := range x.Body.List {
+							ast.Inspect(st, visit)
+						}
+						return false
 					case *types.Map:
 						rewriteMapRange(fe, p, x, u, off, text, rel, uniq)
 					}
+				case *ast.ChanType:
+					if handledChanType[x] {
+						return true
+					}
+					fe.need = true
+					stats["chan_types"]++
+					fe.add(off(x.Pos()), off(x.Value.Pos())-off(x.Pos()), "*__simrt.Chan[")
+					fe.closeAt(off(x.Value.End()), "]")
 				case *ast.SendStmt:
-					trap(x.Pos(), "channel send")
+					if why := chanUnsupported(p, x.Chan); why != "" {
+						trap(x.Pos(), "send on "+why)
+						return false
+					}
+					fe.need = true
+					stats["chan_sends"]++
+					fe.open(off(x.Chan.Pos()), "(")
+					fe.add(off(x.Chan.End()), off(x.Value.Pos())-off(x.Chan.End()), ").Send(")
+					fe.closeAt(off(x.Value.End()), ")")
 				case *ast.SelectStmt:
-					trap(x.Pos(), "select")
+					if labeled[x] {
+						trap(x.Pos(), "labeled select")
+						return false
+					}
+					if why := rewriteSelect(fe, p, x, off, text, uniq); why != "" {
+						trap(x.Pos(), why)
+						return false
+					}
+					for _, cl := range x.Body.List {
+						for _, st := range cl.(*ast.CommClause).Body {
+							ast.Inspect(st, visit)
+						}
+					}
+					return false
 				case *ast.UnaryExpr:
 					if x.Op == token.ARROW {
-						trap(x.Pos(), "channel receive")
+						if why := chanUnsupported(p, x.X); why != "" {
+							trap(x.Pos(), "receive from "+why)
+							return false
+						}
+						fe.need = true
+						stats["chan_recvs"]++
+						fe.add(off(x.Pos()), off(x.X.Pos())-off(x.Pos()), "(")
+						if commaOk[x] {
+							fe.closeAt(off(x.X.End()), ").Recv2()")
+						} else {
+							fe.closeAt(off(x.X.End()), ").Recv()")
+						}
 					}
 				case *ast.CallExpr:
 					if id, ok := x.Fun.(*ast.Ident); ok && id.Name == "make" && len(x.Args) > 0 {
 						if _, isb := p.TypesInfo.Uses[id].(*types.Builtin); isb {
 							if t := p.TypesInfo.TypeOf(x.Args[0]); t != nil {
 								if _, ok := t.Underlying().(*types.Chan); ok {
-									trap(x.Pos(), "make(chan)")
+									ct, lit := x.Args[0].(*ast.ChanType)
+									if !lit || len(x.Args) > 2 {
+										trap(x.Pos(), "make(chan) of a named channel type")
+										return false
+									}
+									fe.need = true
+									stats["chan_makes"]++
+									handledChanType[ct] = true
+									fe.add(off(x.Pos()), off(ct.Value.Pos())-off(x.Pos()), "__simrt.MakeChan[")
+									if len(x.Args) == 2 {
+										fe.add(off(ct.Value.End()), off(x.Args[1].Pos())-off(ct.Value.End()), "](")
+									} else {
+										fe.add(off(ct.Value.End()), off(x.Rparen)-off(ct.Value.End()), "](0")
+									}
 								}
 							}
 						}
 					}
-					if id, ok := x.Fun.(*ast.Ident); ok && id.Name == "close" {
+					if id, ok := x.Fun.(*ast.Ident); ok && (id.Name == "close" || id.Name == "len" || id.Name == "cap") && len(x.Args) == 1 {
 						if _, isb := p.TypesInfo.Uses[id].(*types.Builtin); isb {
-							trap(x.Pos(), "close(chan)")
+							if t := p.TypesInfo.TypeOf(x.Args[0]); t != nil {
+								if _, ok := t.Underlying().(*types.Chan); ok {
+									if why := chanUnsupported(p, x.Args[0]); why != "" {
+										trap(x.Pos(), id.Name+" of "+why)
+										return false
+									}
+									fe.need = true
+									fe.add(off(id.Pos()), len(id.Name), map[string]string{"close": "__simrt.CloseChan", "len": "__simrt.ChanLen", "cap": "__simrt.ChanCap"}[id.Name])
+								}
+							}
 						}
 					}
 				case *ast.SelectorExpr:
@@ -319,7 +474,8 @@ func rewritePkg(p *packages.Package) {
 					}
 				}
 				return true
-			})
+			}
+			ast.Inspect(decl, visit)
 		}
 		// insert traps in deterministic order
 		var tf2 []*ast.FuncDecl
@@ -421,6 +577,202 @@ func rewritePkg(p *packages.Package) {
 	}
 }
 
+// chanUnsupported says why a channel operand cannot be simulated: a channel
+// of a named channel type (methods cannot be attached to the rewritten
+// pointer type), or one that comes from a package that is not rewritten
+// (time.After, context.Done, ...: a real Go channel). "" = supported.
+func chanUnsupported(p *packages.Package, e ast.Expr) string {
+	e = ast.Unparen(e)
+	if t := p.TypesInfo.TypeOf(e); t != nil {
+		if _, ok := types.Unalias(t).(*types.Named); ok {
+			return "a named channel type"
+		}
+	}
+	ext := ""
+	ast.Inspect(e, func(n ast.Node) bool {
+		var id *ast.Ident
+		switch x := n.(type) {
+		case *ast.SelectorExpr:
+			id = x.Sel
+		case *ast.Ident:
+			id = x
+		case *ast.FuncLit:
+			return false
+		}
+		if id != nil {
+			if o := p.TypesInfo.Uses[id]; o != nil && o.Pkg() != nil && !rewritten[o.Pkg().Path()] {
+				if _, isPkgName := o.(*types.PkgName); !isPkgName {
+					if ct := chanOf(o.Type()); ct {
+						ext = "a channel of package " + o.Pkg().Path() + " (a real Go channel)"
+					}
+				}
+			}
+		}
+		return true
+	})
+	return ext
+}
+
+// chanOf: the object is a channel, or a function returning one, or a struct
+// field of channel type.
+func chanOf(t types.Type) bool {
+	switch u := t.Underlying().(type) {
+	case *types.Chan:
+		return true
+	case *types.Signature:
+		for i := 0; i < u.Results().Len(); i++ {
+			if _, ok := u.Results().At(i).Type().Underlying().(*types.Chan); ok {
+				return true
+			}
+		}
+	}
+	return false
+}
+
+// cleanForSelect: the expression can be copied as source text (nothing in it
+// needs rewriting).
+func cleanForSelect(p *packages.Package, e ast.Expr) bool {
+	ok := true
+	ast.Inspect(e, func(n ast.Node) bool {
+		switch x := n.(type) {
+		case *ast.FuncLit, *ast.ChanType:
+			ok = false
+		case *ast.UnaryExpr:
+			if x.Op == token.ARROW {
+				ok = false
+			}
+		case *ast.SelectorExpr:
+			if id, isId := x.X.(*ast.Ident); isId {
+				if pn, isPkg := p.TypesInfo.Uses[id].(*types.PkgName); isPkg {
+					switch pn.Imported().Path() {
+					case "time", "math/rand", "crypto/rand", "math/rand/v2", "runtime", "os":
+						ok = false
+					}
+				}
+			}
+		case *ast.CallExpr:
+			if id, isId := x.Fun.(*ast.Ident); isId {
+				if _, isb := p.TypesInfo.Uses[id].(*types.Builtin); isb {
+					switch id.Name {
+					case "make", "close", "len", "cap":
+						if len(x.Args) > 0 {
+							if t := p.TypesInfo.TypeOf(x.Args[0]); t != nil {
+								if _, isChan := t.Underlying().(*types.Chan); isChan {
+									ok = false
+								}
+							}
+						}
+					}
+				}
+			}
+		}
+		return ok
+	})
+	return ok
+}
+
+// rewriteSelect turns a select statement into a block that evaluates the
+// channel operands, calls simrt.Select and switches on the chosen case. It
+// returns a reason when the statement cannot be rewritten (nothing is
+// edited then).
+func rewriteSelect(fe *fileEdits, p *packages.Package, x *ast.SelectStmt,
+	off func(token.Pos) int, text func(ast.Node) string, uniq func(string) string) string {
+	type cse struct {
+		cc     *ast.CommClause
+		ch     ast.Expr
+		val    ast.Expr // send value
+		lhs    []ast.Expr
+		define bool
+	}
+	var cs []*cse
+	hasDefault := false
+	for _, cl := range x.Body.List {
+		cc := cl.(*ast.CommClause)
+		c := &cse{cc: cc}
+		switch st := cc.Comm.(type) {
+		case nil:
+			hasDefault = true
+		case *ast.SendStmt:
+			c.ch, c.val = st.Chan, st.Value
+		case *ast.ExprStmt:
+			u, ok := ast.Unparen(st.X).(*ast.UnaryExpr)
+			if !ok || u.Op != token.ARROW {
+				return "select: unexpected communication clause"
+			}
+			c.ch = u.X
+		case *ast.AssignStmt:
+			if len(st.Rhs) != 1 {
+				return "select: unexpected communication clause"
+			}
+			u, ok := ast.Unparen(st.Rhs[0]).(*ast.UnaryExpr)
+			if !ok || u.Op != token.ARROW {
+				return "select: unexpected communication clause"
+			}
+			c.ch, c.lhs, c.define = u.X, st.Lhs, st.Tok == token.DEFINE
+		default:
+			return "select: unexpected communication clause"
+		}
+		if c.ch != nil {
+			if why := chanUnsupported(p, c.ch); why != "" {
+				return "select on " + why
+			}
+			if !cleanForSelect(p, c.ch) || (c.val != nil && !cleanForSelect(p, c.val)) {
+				return "select whose operands need rewriting themselves"
+			}
+			for _, l := range c.lhs {
+				if !cleanForSelect(p, l) {
+					return "select whose operands need rewriting themselves"
+				}
+			}
+		}
+		cs = append(cs, c)
+	}
+	fe.need = true
+	stats["selects"]++
+	var pre, args strings.Builder
+	pre.WriteString("{ ")
+	idx := 0
+	for _, c := range cs {
+		hdrStart, hdrEnd := off(c.cc.Pos()), off(c.cc.Colon)+1
+		old := string(fe.src[hdrStart:hdrEnd])
+		nl := strings.Repeat("\n", strings.Count(old, "\n"))
+		if c.ch == nil {
+			fe.add(hdrStart, hdrEnd-hdrStart, "default:"+nl)
+			continue
+		}
+		cv := uniq("c")
+		fmt.Fprintf(&pre, "%s := %s; ", cv, text(c.ch))
+		post := ""
+		if c.val != nil {
+			fmt.Fprintf(&args, ", __simrt.SendCase(%s, %s)", cv, text(c.val))
+		} else if len(c.lhs) == 0 {
+			fmt.Fprintf(&args, ", __simrt.RecvCase(%s, nil, nil)", cv)
+		} else {
+			rv, okv := uniq("r"), uniq("ok")
+			fmt.Fprintf(&pre, "%s := __simrt.Slot(%s); var %s bool; _ = %s; ", rv, cv, okv, okv)
+			fmt.Fprintf(&args, ", __simrt.RecvCase(%s, %s, &%s)", cv, rv, okv)
+			srcs := []string{"*" + rv, okv}
+			for i, l := range c.lhs {
+				name := text(l)
+				if id, ok := l.(*ast.Ident); ok && id.Name == "_" {
+					post += fmt.Sprintf(" _ = %s;", srcs[i])
+				} else if c.define {
+					post += fmt.Sprintf(" %s := %s;", name, srcs[i])
+				} else {
+					post += fmt.Sprintf(" %s = %s;", name, srcs[i])
+				}
+			}
+		}
+		fe.add(hdrStart, hdrEnd-hdrStart, fmt.Sprintf("case %d:%s", idx, post)+nl)
+		idx++
+	}
+	start, end := off(x.Pos()), off(x.Body.Lbrace)+1
+	old := string(fe.src[start:end])
+	fe.add(start, end-start, fmt.Sprintf("%sswitch __simrt.Select(%v%s) {", pre.String(), hasDefault, args.String())+strings.Repeat("\n", strings.Count(old, "\n")))
+	fe.closeAt(off(x.End()), " }")
+	return ""
+}
+
 func simpleExpr(e ast.Expr) bool {
 	switch x := e.(type) {
 	case *ast.Ident:
@@ -489,7 +841,12 @@ func rewriteMapRange(fe *fileEdits, p *packages.Package, x *ast.RangeStmt, m *ty
 }
 
 func apply(fe *fileEdits) {
-	sort.SliceStable(fe.edits, func(i, j int) bool { return fe.edits[i].off < fe.edits[j].off })
+	sort.SliceStable(fe.edits, func(i, j int) bool {
+		if fe.edits[i].off != fe.edits[j].off {
+			return fe.edits[i].off < fe.edits[j].off
+		}
+		return fe.edits[i].prio < fe.edits[j].prio
+	})
 	var out []byte
 	pos := 0
 	for _, e := range fe.edits {
